@@ -250,8 +250,16 @@ func (m *c25Monitor) observe(i int, st *stepRec, e *events) {
 		}
 	}
 	for a := range e.downtimeJail {
-		_ = a
 		c.Label("downtime-jail")
+		// the jail period is counted in block time: JailedUntil = time of the jailing block + DowntimeJailDuration
+		before, after := st.Pre.SignInfos[a], st.AfterBegin.SignInfos[a]
+		if !after.JailedUntil.Equal(before.JailedUntil) {
+			want := st.Time.Add(st.AfterBegin.Params.DowntimeJailDuration)
+			if !after.JailedUntil.Equal(want) {
+				c.Violation("C25/jail/jailed-until-not-block-time-plus-duration", "%s: node %s was jailed for downtime in a block with time %s and jail duration %s, but JailedUntil is %s",
+					where, a[:8], st.Time, st.AfterBegin.Params.DowntimeJailDuration, after.JailedUntil)
+			}
+		}
 	}
 }
 
